@@ -188,6 +188,83 @@ def harness_stage(res, prop, tier, name, src, scenarios, args, what):
     return found
 
 
+SPELL_NAMES = {'R_val': 'Result<V,E>', 'R_rref': 'Result<V,E>&&', 'R_cref': 'const Result<V,E>&', 'R_autoref': 'auto&&', 'R_auto': 'auto',
+               'V_val': 'V', 'V_rref': 'V&&', 'V_cref': 'const V&', 'V_same': 'a generic parameter constrained to V',
+               'E_val': 'E', 'E_cref': 'const E&', 'X_val': 'std::exception_ptr', 'X_cref': 'const std::exception_ptr&'}
+CLASS_NAMES = {'R': 'Result', 'V': 'value', 'E': 'error', 'X': 'exception'}
+
+
+def spell_cells(kind='plain'):
+    import re
+    import subprocess
+    r = subprocess.run([C.build_harness('spell', kind, ['spell.cpp'])], capture_output=True, text=True)
+    if r.returncode != 0:
+        raise C.BuildError('spell exited %d: %s' % (r.returncode, (r.stderr or r.stdout)[-800:]))
+    cells = []
+    for line in r.stdout.split('\n'):
+        m = re.match(r'spell (\w+) (\w+) (\w) (\w+) (\w+) inv=(\d+) final=(\S+)$', line)
+        if m:
+            cells.append((m.group(1), m.group(2), m.group(3), m.group(4), m.group(5), int(m.group(6)), m.group(7), line))
+    m = re.search(r'^cells (\d+)$', r.stdout, re.M)
+    if not m or int(m.group(1)) != len(cells) or len(cells) < 400:
+        raise C.BuildError('spell printed %d cells (trailer %s)' % (len(cells), m.group(1) if m else 'missing'))
+    return cells
+
+
+def spell_model():
+    """what the Lean model says for (class, input, form): the equivalent pipeline program run by ymdriver_pipe"""
+    forms = {'inline': lambda c, i: ['src ready %s' % i, 'then 1 %s inline val:1' % c, 'flush', 'expect'],
+             'exec': lambda c, i: ['cfg e1 queue', 'src ready %s' % i, 'then 1 %s on:e1 val:1' % c, 'flush', 'expect'],
+             'lazy': lambda c, i: ['src task_ready %s' % i, 'then 1 %s inline val:1' % c, 'start tofuture', 'flush', 'expect'],
+             'later': lambda c, i: ['src contract p0 set:%s' % i, 'then 1 %s inline val:1' % c, 'flush', 'expect']}
+    keys, progs = [], []
+    for c in 'RVEX':
+        for i in ('v5', 'e3', 'e0', 'x2'):
+            for f, mk in forms.items():
+                keys.append((c, i, f))
+                progs.append(mk(c, i))
+    out = {}
+    if not os.path.exists(pipe.DRV):
+        return out
+    for k, o in zip(keys, pipe.run_batch(progs)):
+        st = pipe.parse_state(o['model'][-1])
+        out[k] = (len(st['inv']), st['st'][6:] if st['st'].startswith('ready:') else st['st'])
+    return out
+
+
+def spell_check(res, tier):
+    """C02: the SPELLING of a callback's parameter does not change its class — fixed matrix of harness/spell.cpp (13 spellings x
+    {copyable, move-only V} x 4 inputs x 4 forms) against the class semantics (python reading) and the Lean model"""
+    kinds = ['plain'] + (['plain_asan'] if tier != 'quick' else [])
+    model = spell_model()
+    bad, corr = [], []
+    n = 0
+    for kind in kinds:
+        for fam, sp, cls, inp, form, inv, fin, line in spell_cells(kind):
+            n += 1
+            runs = pipe.runs_on(cls, inp)
+            want = (1, pipe.add_k(inp, 1)) if runs else (0, inp)
+            if (inv, fin) != want:
+                bad.append(('a callback whose parameter is spelled `%s` (a %s callback)%s, input %s, form %s: invoked %d time(s), final '
+                            'Result %s — %s: expected %d invocation(s), final %s' % (
+                                SPELL_NAMES.get(sp, sp), CLASS_NAMES[cls], ' with a MOVE-ONLY value type' if fam == 'mv' else '', inp, form,
+                                inv, fin, 'a callback taking Result always runs' if cls == 'R' else
+                                'a %s callback runs exactly on %s' % (CLASS_NAMES[cls], {'V': 'a value', 'E': 'an error', 'X': 'an exception'}[cls]),
+                                want[0], want[1]), line))
+            elif model and model.get((cls, inp, form)) != (inv, fin):
+                corr.append(line)
+    res.coverage['parameter_spellings'] = {'cells': n, 'spellings': sorted(SPELL_NAMES.values()), 'families': ['copyable V', 'move-only V'],
+                                           'compared_with': ['class semantics (python)'] + (['Lean mech (ymdriver_pipe)'] if model else [])}
+    if bad:
+        res.violation('spell\n' + '\n'.join('# ' + l for _, l in bad[:60]), bad[0][0] + ('' if len(bad) == 1 else '  (+ %d more cells)' % (len(bad) - 1)),
+                      name='C02_%s_spelling.txt' % tier)
+    elif corr:
+        res.violation('spell\n' + '\n'.join('# ' + l for l in corr[:60]),
+                      'correspondence broken: %d cell(s) of the spelling matrix differ from the Lean model but agree with the class semantics' % len(corr),
+                      no_input=True, name='C02_%s_spelling_correspondence.txt' % tier)
+    return [m for m, _ in bad], corr
+
+
 def run(res, prop, tier):
     res.assumptions += [
         'single-threaded programs: the property quantifies over programs / inputs / fault (rejection) positions, not schedules; '
@@ -207,6 +284,8 @@ def run(res, prop, tier):
     if prop == 'C02':
         rf, rc = resultalg.check(res, tier)   # util/result.hpp: the Result algebra differential
         prop_fail, corr_fail = list(prop_fail) + rf, list(corr_fail) + rc
+        sf, sc = spell_check(res, tier)       # the spelling of a callback's parameter does not change its class
+        prop_fail, corr_fail = list(prop_fail) + sf, list(corr_fail) + sc
     if prop == 'C05':
         ff, fc = pipe.free_check(res, tier)   # jobs that are not pipeline steps: yaclib::Submit(e, f)
         prop_fail, corr_fail = list(prop_fail) + ff, list(corr_fail) + fc
@@ -233,4 +312,10 @@ def replay(prop, path):
     first = [l.strip() for l in open(path) if l.strip() and not l.startswith('#')]
     if first and first[0].startswith('ty '):
         return resultalg.replay(path)
+    if first and first[0] == 'spell':
+        bad = [c[-1] for c in spell_cells() if (c[5], c[6]) != ((1, pipe.add_k(c[3], 1)) if pipe.runs_on(c[2], c[3]) else (0, c[3]))]
+        print('\n'.join(bad[:80]))
+        print('%d cell(s) of the spelling matrix violate the class semantics' % len(bad))
+        print('VIOLATION reproduced' if bad else 'no difference')
+        return 1 if bad else 0
     return pipe.replay(prop, path)
